@@ -1406,3 +1406,153 @@ func derefType(t types.Type) types.Type {
 	}
 	return t
 }
+
+func init() {
+	register(&Rule{ID: "KS-2", Min: 1, Run: runKS2,
+		Doc: "every key shortcut of an object is tried: in objectValidator.validateTypeRules the loop over the object's keys is left by a return only with a positive answer — every return inside a loop of that function gives the constant true as its found-flag, or a value the return is reached by only on that value's true branch; answering for the first shortcut whether or not it matched means that with {@A: 1, @B: 2} a key conforming only to @B is rejected"})
+}
+
+func runKS2(c *load.Ctx, r *report.RuleResult) {
+	fn := c.Func(pkgValidator, "objectValidator.validateTypeRules")
+	if fn == nil {
+		r.Unk("anchor|validator.objectValidator.validateTypeRules", "", "not found")
+		return
+	}
+	key := "keyshortcut-all|validateTypeRules"
+	inLoop := loopBlocks(fn)
+	if len(inLoop) == 0 {
+		r.Bad(key, c.Pos(fn.Pos()), "the function has no loop over the object's keys: at most one shortcut can be tried")
+		return
+	}
+	var bad []string
+	returns := 0
+	for _, b := range fn.Blocks {
+		if !inLoop[b] {
+			continue
+		}
+		ret, ok := b.Instrs[len(b.Instrs)-1].(*ssa.Return)
+		if !ok || len(ret.Results) == 0 {
+			continue
+		}
+		returns++
+		flag := ret.Results[len(ret.Results)-1]
+		if k, ok := flag.(*ssa.Const); ok && k.Value != nil && k.Value.String() == "true" {
+			continue
+		}
+		if reachedOnlyWhenTrue(b, flag) {
+			continue
+		}
+		bad = append(bad, "the return at "+c.Pos(ret.Pos())+" leaves the loop with the found-flag "+flag.String()+", which may be false")
+	}
+	if len(bad) > 0 {
+		r.Bad(key, c.Pos(fn.Pos()), strings.Join(bad, "; ")+": the shortcuts after the first one tried are never looked at")
+	} else {
+		r.OK(key, c.Pos(fn.Pos()), fmt.Sprintf("%d return(s) inside the loop, each with a positive answer", returns))
+	}
+}
+
+// loopBlocks: the blocks that lie on a cycle of the function's control-flow graph.
+func loopBlocks(fn *ssa.Function) map[*ssa.BasicBlock]bool {
+	out := map[*ssa.BasicBlock]bool{}
+	for _, b := range fn.Blocks {
+		// b is in a loop iff b is reachable from one of its successors
+		seen := map[*ssa.BasicBlock]bool{}
+		stack := append([]*ssa.BasicBlock{}, b.Succs...)
+		for len(stack) > 0 {
+			x := stack[len(stack)-1]
+			stack = stack[:len(stack)-1]
+			if seen[x] {
+				continue
+			}
+			seen[x] = true
+			stack = append(stack, x.Succs...)
+		}
+		if seen[b] {
+			out[b] = true
+		}
+	}
+	// loop headers: cycle blocks entered from outside the cycle; leaving from the header is the
+	// loop's normal end, not a way out of its body
+	header := map[*ssa.BasicBlock]bool{}
+	for b := range out {
+		for _, p := range b.Preds {
+			if !out[p] {
+				header[b] = true
+			}
+		}
+	}
+	// blocks that leave the loop by returning from its body belong to the body
+	for changed := true; changed; {
+		changed = false
+		for _, b := range fn.Blocks {
+			if out[b] || len(b.Preds) == 0 {
+				continue
+			}
+			all := true
+			for _, p := range b.Preds {
+				if !out[p] || header[p] {
+					all = false
+				}
+			}
+			if all {
+				out[b] = true
+				changed = true
+			}
+		}
+	}
+	return out
+}
+
+// reachedOnlyWhenTrue: every predecessor edge into b is the true edge of a branch on v.
+func reachedOnlyWhenTrue(b *ssa.BasicBlock, v ssa.Value) bool {
+	if len(b.Preds) == 0 {
+		return false
+	}
+	for _, p := range b.Preds {
+		ifi, ok := p.Instrs[len(p.Instrs)-1].(*ssa.If)
+		if !ok || p.Succs[0] != b || p.Succs[1] == b {
+			return false
+		}
+		if ifi.Cond != v && !sameCellReadTwice(p, ifi.Cond, b, v) {
+			return false
+		}
+	}
+	return true
+}
+
+// sameCellReadTwice: cond (read at the end of block p) and v (read in block b) are two loads of the
+// same local cell with nothing in between that could write it (go/ssa does not merge the two reads
+// of a variable that a closure captures).
+func sameCellReadTwice(p *ssa.BasicBlock, cond ssa.Value, b *ssa.BasicBlock, v ssa.Value) bool {
+	l1, ok1 := cond.(*ssa.UnOp)
+	l2, ok2 := v.(*ssa.UnOp)
+	if !ok1 || !ok2 || l1.Op != token.MUL || l2.Op != token.MUL || l1.X != l2.X || l1.Block() != p || l2.Block() != b {
+		return false
+	}
+	quiet := func(ins ssa.Instruction) bool {
+		switch ins.(type) {
+		case *ssa.Store, *ssa.Call, *ssa.MapUpdate, *ssa.Go, *ssa.Defer:
+			return false
+		}
+		return true
+	}
+	after := false
+	for _, ins := range p.Instrs {
+		if ins == ssa.Instruction(l1) {
+			after = true
+			continue
+		}
+		if after && !quiet(ins) {
+			return false
+		}
+	}
+	for _, ins := range b.Instrs {
+		if ins == ssa.Instruction(l2) {
+			return true
+		}
+		if !quiet(ins) {
+			return false
+		}
+	}
+	return false
+}
